@@ -290,3 +290,50 @@ theorem langU_complete (hb : Built F A G) (ok : FlatOK F A) (hd : A.Det) :
 end Lang
 
 end PS.U.FD
+
+namespace PS.U.FD
+open PS PS.G PS.U DFTA
+variable {Q U V : Type} [DecidableEq Q] [DecidableEq U] [DecidableEq V]
+set_option linter.unusedSectionVars false
+
+/-- a level that bounds every key: one more than the sum of all ranks -/
+def levelOf (A : DFTA Sym Q) (rank : Q → Nat) : Nat := (A.allStates.map rank).sum
+
+theorem rank_le_levelOf (A : DFTA Sym Q) (rank : Q → Nat) (q : Q) (hq : q ∈ A.allStates) :
+    rank q ≤ levelOf A rank :=
+  Ops.le_sum_of_mem (List.mem_map.mpr ⟨q, hq, rfl⟩)
+
+/-- the accepted trees, enumerated from the start symbols -/
+theorem mem_langU_starts {F : Flat Q U V} {A : DFTA Sym Q} {G : UCFG V} (hb : Built F A G)
+    (ok : FlatOK F A) (hd : A.Det) (rank : Q → Nat)
+    (hrank : ∀ r ∈ A.rules, ∀ a ∈ r.1.2, rank a < rank r.2) (t : Prog) :
+    t ∈ G.starts.flatMap (fun s => langU G (levelOf A rank + 1) s) ↔ A.accepts t = true := by
+  rw [accepts_iff, List.mem_flatMap, hb.starts_eq]
+  constructor
+  · rintro ⟨s, hs, ht⟩
+    obtain ⟨q, hqf, hqs⟩ := (mem_startsOf F A s).mp hs
+    have hk : s ∈ AList.keys G.rules := hb.starts s (by rw [hb.starts_eq]; exact hs)
+    exact ⟨q, langU_sound hb ok hd _ s q t hk (mem_finals_allStates A q hqf)
+      (by rw [← hqs, ok.proj_root]) ht, hqf⟩
+  · rintro ⟨q, hrun, hqf⟩
+    have hs : F.root (F.d q) ∈ startsOf F A := (mem_startsOf F A _).mpr ⟨q, hqf, rfl⟩
+    have hk : F.root (F.d q) ∈ AList.keys G.rules := hb.starts _ (by rw [hb.starts_eq]; exact hs)
+    have hqa := mem_finals_allStates A q hqf
+    refine ⟨_, hs, langU_complete hb ok hd _ _ q t hk hqa (ok.proj_root _) ?_ hrun⟩
+    exact bounded_key hb ok rank hrank _ _ q (rank_le_levelOf A rank q hqa) hk hqa (ok.proj_root _)
+
+/-- `programs()` is the length of that enumeration -/
+theorem programs_eq_enum {F : Flat Q U V} {A : DFTA Sym Q} {G : UCFG V} (hb : Built F A G)
+    (ok : FlatOK F A) (rank : Q → Nat) (hrank : ∀ r ∈ A.rules, ∀ a ∈ r.1.2, rank a < rank r.2)
+    (fuel n : Nat) (h : programs G fuel = some n) :
+    n = (G.starts.flatMap (fun s => langU G (levelOf A rank + 1) s)).length := by
+  have hbd : ∀ s ∈ G.starts, boundedU G (levelOf A rank + 1) s = true := by
+    intro s hs
+    rw [hb.starts_eq] at hs
+    obtain ⟨q, hqf, hqs⟩ := (mem_startsOf F A s).mp hs
+    have hqa := mem_finals_allStates A q hqf
+    exact bounded_key hb ok rank hrank _ s q (rank_le_levelOf A rank q hqa)
+      (hb.starts s (by rw [hb.starts_eq]; exact hs)) hqa (by rw [← hqs, ok.proj_root])
+  rw [Ops.programs_eq_length G fuel n _ h hbd, List.length_flatMap]
+
+end PS.U.FD
